@@ -38,8 +38,10 @@ from xdoctest import utils
 from xdoctest import constants
 from xdoctest import directive
 
-unicode_literal_re = re.compile(r"(\W|^)[uU]([rR]?[\'\"])", re.UNICODE)
-bytes_literal_re = re.compile(r"(\W|^)[bB]([rR]?[\'\"])", re.UNICODE)
+# (a quote in front of the letter means the letter is the text of a one letter
+# string, not a prefix)
+unicode_literal_re = re.compile(r"([^\w\'\"]|^)[uU]([rR]?[\'\"])", re.UNICODE)
+bytes_literal_re = re.compile(r"([^\w\'\"]|^)[bB]([rR]?[\'\"])", re.UNICODE)
 
 BLANKLINE_MARKER = '<BLANKLINE>'
 ELLIPSIS_MARKER = '...'
